@@ -362,6 +362,35 @@ package virtual
 //@   ensures a-granted-link-adds-one: r0 == StatusOK ==> delta(&l.linkCount) == old(delta(&l.linkCount)) + 1
 //@   ensures stale-or-ok: r0 == StatusOK || r0 == StatusErrStale
 
+// Loading a directory of the input root from its Directory message (C17): every
+// entry of the message becomes exactly one child (an invalid or duplicate name
+// fails the whole directory instead of being dropped or overwritten), and the
+// leaves that were already created when a later entry fails are given back.
+// leavesmade(nil) / leavesgivenback(nil): leaves created by / unlinked again by
+// this call.
+//@ ghost map leavesmade(ref) int zero
+//@ ghost map leavesgivenback(ref) int zero
+//@ func (*casInitialContentsFetcher).fetchContentsUnwrapped$1
+//@   props C17
+//@   modifies leavesgivenback, leaflinks
+//@   at call Unlink#1 ghostset leavesgivenback[nil] = leavesgivenback(nil) + 1
+//@   loop 0 invariant leavesgivenback(nil) == old(leavesgivenback(nil)) + rangeindex + 1 && rangeindex >= -1 && rangeindex < len(leavesToUnlink)
+//@   ensures every-remembered-leaf-is-given-back-once: leavesgivenback(nil) == old(leavesgivenback(nil)) + len(leavesToUnlink)
+//@ func (*casInitialContentsFetcher).fetchContentsUnwrapped
+//@   props C17
+//@   at call LookupFile#1 ghostset leavesmade[nil] = leavesmade(nil) + 1
+//@   at call LookupSymlink#1 ghostset leavesmade[nil] = leavesmade(nil) + ite(r1 == nil, 1, 0)
+//@   loop 0 invariant len(children) == rangeindex + 1 && leavesmade(nil) == 0 && rangeindex >= -1 && rangeindex < len(directory.Directories)
+//@   loop 1 invariant len(children) == len(directory.Directories) + rangeindex + 1 && leavesmade(nil) == rangeindex + 1 && len(leavesToUnlink) == rangeindex + 1 &&
+//@             rangeindex >= -1 && rangeindex < len(directory.Files)
+//@   loop 2 invariant len(children) == len(directory.Directories) + len(directory.Files) + rangeindex + 1 &&
+//@             leavesmade(nil) == len(directory.Files) + rangeindex + 1 && len(leavesToUnlink) == leavesmade(nil) &&
+//@             rangeindex >= -1 && rangeindex < len(directory.Symlinks)
+//@   ensures every-entry-of-the-directory-message-becomes-one-child:
+//@             r1 == nil ==> len(r0) == len(directory.Directories) + len(directory.Files) + len(directory.Symlinks)
+//@   ensures leaves-created-before-a-failure-are-given-back: r1 != nil ==> leavesgivenback(nil) == leavesmade(nil)
+//@   ensures no-leaf-is-given-back-on-success: r1 == nil ==> leavesgivenback(nil) == 0
+
 // NFSv4 handle allocator: identical immutable (CAS backed) files share one leaf
 // per inode number. Every directory entry that is handed the shared leaf is
 // counted, the redundant underlying leaf is given back, and the shared leaf is
